@@ -594,6 +594,8 @@ class ReactionSystem(object):
         return cont * (unit if unit is not None else 1)
 
     def as_per_substance_dict(self, arr):
+        if len(arr) != self.ns:  # zip would silently drop the rest
+            raise ValueError("Incorrect size")
         return dict(zip(self.substances.keys(), arr))
 
     def as_substance_index(self, substance_key):
